@@ -1464,8 +1464,11 @@ class C15(Monitor):
             self.v("valid pool_size assignment raised", out)
         else:
             self.grand[p] = set(w.all_created(p))
-            self.allow[p] = self.pre
-            self.allow_tags[p] = list(self.pre_tags)
+            # admissions granted before an EARLIER assignment that have not completed yet (the place is still in transit
+            # to its spawner) stay granted across this assignment; they cannot exceed the demand that is still pending
+            carried = min(self.allow.get(p, 0), self.demand(p))
+            self.allow[p] = max(self.pre, carried)
+            self.allow_tags[p] = sorted(set(self.pre_tags) | {t for t in self.allow_tags.get(p, ()) if t in self.pending_tags(p)})
 
     def quiet_idle(self):
         w = self.w
